@@ -95,6 +95,8 @@ def build_registry(mods):
     reg.models[common.forall_range] = _models.q_forall
     reg.models[common.exists_range] = _models.q_exists
     reg.models[common.is_opaque] = _models.m_is_opaque
+    if hasattr(common, 'rec_app'):
+        reg.models[common.rec_app] = _models.m_rec_app
     if hasattr(common, 'is_item'):
         reg.models[common.is_item] = _models.m_is_item
     for _n in ('conj', 'slot', 'snapshot_lists', 'all_keys'):
